@@ -173,7 +173,12 @@ def _build(case, net):
         if case["container"] == "tuple":
             pts = tuple(pts)
         return cls.from_points(net, pts, **kw), cls
-    return cls(net, _container(case["x"], case["container"]), _container(case["y"], case["container"]), **kw), cls
+    xc, yc = _container(case["x"], case["container"]), _container(case["y"], case["container"])
+    _LAST_INPUTS[:] = [xc, yc]
+    return cls(net, xc, yc, **kw), cls
+
+
+_LAST_INPUTS = []
 
 
 def _ev(c, p):
@@ -203,6 +208,12 @@ def check(case):
     except Exception as e:
         res.fail("constructor-exc/%s/%s" % (cls_name, exc_sig(e)), msg=str(e)[:200])
         return res
+    # the support data handed over by the caller must not be modified by the object
+    if len(_LAST_INPUTS) == 2 and case["ctor"] != "from_points":
+        for nm, given, orig in (("x", _LAST_INPUTS[0], xs), ("y", _LAST_INPUTS[1], ys)):
+            now = [float(v) for v in np.asarray(given, dtype=float).reshape(-1)]
+            if now != [float(v) for v in orig]:
+                res.fail("caller-data-modified/%s/%s" % (cls_name, case["container"]), which=nm, before=list(orig)[:4], after=now[:4])
     scale = max(abs(v) for v in ys) or 1.0
     smooth = kind in SMOOTH_KINDS or kind == "default"
     ktol = (1e-9 if smooth else 1e-12) * scale
